@@ -580,6 +580,36 @@ pub fn run(ctx: &Ctx) -> Report {
         rep.merge(r);
     }
 
+    // ---- well-formed requests whose reply has exactly N packets, for N around 256 and 512, with a
+    //      client that sends its next command only after the reply: the outcome of a request is a
+    //      reply or an error return, never silence
+    if !ctx.miri {
+        let counts: Vec<usize> = (252..=260).chain(508..=516).collect();
+        let r = par_cases(ctx, "C20", "reply-packet-counts-in-lock-step", counts.len() as u64, |_rng, i, rep| {
+            let packets = counts[i as usize];
+            let rows = packets - 4;
+            let cols = vec![simple_col("a", msql_srv::ColumnType::MYSQL_TYPE_LONG)];
+            let mut ops = vec![QOp::Start(0)];
+            for r in 0..rows {
+                ops.push(QOp::Row(vec![Cell::val(V::I32(r as i32))], RowForm::Owned));
+            }
+            ops.push(QOp::Finish);
+            let mut case = Case::new(vec![Cmd::query(b"q"), Cmd::ping(), Cmd::query(b"q2"), Cmd::ping()], vec![Script::Q(QProg { colsets: vec![cols.clone()], ops: ops.clone(), on_err: OnErr::Drop }), Script::Q(QProg { colsets: vec![cols], ops, on_err: OnErr::Drop })]);
+            case.arrival = Arrival::Pipelined(1);
+            let obs = run_case(&case);
+            rep.evaluations += 1;
+            let what = format!("well-formed query, reply of {} packets, lock-step", packets);
+            let d = || J::obj().set("generator", "well-formed COM_QUERY answered with a one-column resultset").set("reply_packets", packets).set("arrival", "lock-step").set("outcome", obs.outcome.describe());
+            judge(&obs, &what, rep, &d);
+            if let Some(r) = &obs.world.deadlock {
+                rep.violations.push(viol("C20", "C20 request-never-answered".into(), format!("the server waits for input at offset {} although a complete request has no (flushed) reply: {} bytes written and not flushed", r.pos, r.pending), d()));
+            } else if obs.outcome == Outcome::Ok {
+                rep.counters.inc("lock_step_replies_of_chosen_packet_count_delivered");
+            }
+        });
+        rep.merge(r);
+    }
+
     // ---- malformed input INSIDE an established TLS session (the second handshake parse of init())
     if let Some(m) = &tlsm {
         let caps = 0x003f_a685 | wire::CLIENT_SSL;
